@@ -229,55 +229,58 @@ def textZero (g : Grid) (c : Nat) : M Grid :=
     else pure g
   else pure g
 
+/-- the cell writes of the branch of `text` for a character of width 1 or 2 (after `col_wrap`); they
+all happen on the cursor's row: `col` = cursor column, `cols` = screen width -/
+def textWideRow (W : Nat → Option Nat) (row : Row) (col cols : Nat) (attrs : Attrs) (c width : Nat) : M Row := do
+  let cell0 ← getM 530 row.cells col
+  let row ←
+    if cell0.isWideContinuation then do
+      let c1 ← subM 531 col 1
+      let cs ← modifyM 532 row.cells c1 (fun cell => pure (cell.clear attrs))
+      pure { row with cells := cs }
+    else pure row
+  let cell1 ← getM 533 row.cells col
+  let row ←
+    if cell1.isWide then do
+      let cs ← modifyM 534 row.cells (col + 1) (fun cell => cell.set W 32 attrs)
+      pure { row with cells := cs }
+    else pure row
+  let cs ← modifyM 535 row.cells col (fun cell => cell.set W c attrs)
+  let row := { row with cells := cs }
+  if width > 1 then do
+    let cell2 ← getM 536 row.cells (col + 1)
+    let row ←
+      if cell2.isWide then do
+        let cs ← modifyM 537 row.cells (col + 2) (fun cell => pure (cell.clear attrs))
+        let row := { row with cells := cs }
+        if col + 2 + 1 == cols then pure (row.wrap false) else pure row
+      else pure row
+    let cs ← modifyM 539 row.cells (col + 1)
+      (fun cell => pure ((cell.clear Attrs.default).setWideContinuation true))
+    pure { row with cells := cs }
+  else pure row
+
 /-- the branch of `text` for a character of width 1 or 2, after `col_wrap` -/
 def textWide (W : Nat → Option Nat) (g : Grid) (attrs : Attrs) (c width : Nat) : M Grid := do
-  let pos := g.pos
-  let size := g.size
-  let cell0 ← g.drawingCellM 530 pos
-  let g ←
-    if cell0.isWideContinuation then do
-      let c1 ← subM 531 pos.col 1
-      g.modifyCellM 532 ⟨pos.row, c1⟩ (fun cell => pure (cell.clear attrs))
-    else pure g
-  let cell1 ← g.drawingCellM 533 pos
-  let g ←
-    if cell1.isWide then
-      g.modifyCellM 534 ⟨pos.row, pos.col + 1⟩ (fun cell => cell.set W 32 attrs)
-    else pure g
-  let g ← g.modifyCellM 535 pos (fun cell => cell.set W c attrs)
-  let g := g.colInc 1
-  if width > 1 then do
-    let pos := g.pos
-    let cell2 ← g.drawingCellM 536 pos
-    let g ←
-      if cell2.isWide then do
-        let nn : Pos := ⟨pos.row, pos.col + 1⟩
-        let g ← g.modifyCellM 537 nn (fun cell => pure (cell.clear attrs))
-        if nn.col + 1 == size.cols then do
-          let rows ← modifyM 538 g.rows pos.row (fun r => pure (r.wrap false))
-          pure { g with rows := rows }
-        else pure g
-      else pure g
-    let g ← g.modifyCellM 539 pos
-      (fun cell => pure ((cell.clear Attrs.default).setWideContinuation true))
-    pure (g.colInc 1)
-  else pure g
+  let g ← g.modifyCurrentRow (fun row => textWideRow W row g.pos.col g.size.cols attrs c width)
+  pure (if width > 1 then (g.colInc 1).colInc 1 else g.colInc 1)
+
+/-- should the line the cursor leaves be flagged wrapped: only if its last column is occupied -/
+def wrapDecision (g : Grid) (width : Nat) : M Bool := do
+  let lim ← subM 520 g.size.cols width
+  if g.pos.col > lim then do
+    let c1 ← subM 521 g.size.cols 1
+    let lastCell ← g.drawingCellM 522 ⟨g.pos.row, c1⟩
+    pure (lastCell.hasContents || lastCell.isWideContinuation)
+  else pure false
 
 def text (W : Nat → Option Nat) (g : Grid) (attrs : Attrs) (c : Nat) : M Grid := do
-  let pos := g.pos
-  let size := g.size
   let width := W c
   if width.isNone && c < 256 then pure g
   else do
     let width := width.getD 1
-    if width > size.cols then pure g else
-    let lim ← subM 520 size.cols width
-    let wrap ←
-      if pos.col > lim then do
-        let c1 ← subM 521 size.cols 1
-        let lastCell ← g.drawingCellM 522 ⟨pos.row, c1⟩
-        pure (lastCell.hasContents || lastCell.isWideContinuation)
-      else pure false
+    if width > g.size.cols then pure g else
+    let wrap ← g.wrapDecision width
     let g ← g.colWrap width wrap
     if width == 0 then g.textZero c else g.textWide W attrs c width
 
